@@ -46,8 +46,12 @@ func (lookup *TypeLookup) AddUserType(t *UserType) error {
 		case *UserType:
 			return nil
 		case *BuiltinType:
-			// The parser should prevent this from ever happening
-			return &userBaseTypeNameError
+			// The tokenizer prevents this for most builtin type names,
+			// but not all of them (e.g. "file").
+			return &wrapError{
+				innerError: &userBaseTypeNameError,
+				loc:        t.Node.Loc,
+			}
 		case AstNodable:
 			return &wrapError{
 				innerError: &duplicateOfStructTypeError,
@@ -87,8 +91,12 @@ func (lookup *TypeLookup) AddStructType(t *StructType) error {
 				return nil
 			}
 		case *BuiltinType:
-			// The parser should prevent this from ever happening
-			return fmt.Errorf("type name conflicts with a base type")
+			// The tokenizer prevents this for most builtin type names,
+			// but not all of them (e.g. "file").
+			return &wrapError{
+				innerError: &userBaseTypeNameError,
+				loc:        t.Node.Loc,
+			}
 		case AstNodable:
 			return &wrapError{
 				innerError: &duplicateOfStructTypeError,
